@@ -179,7 +179,9 @@ PROPS = {
              "overflow indicator is dropped (R-FLAG); the indicator of overflowing_add/sub/neg can be false for BITS == 0 "
              "and is not provably constant for BITS > 0 (R-FLAG/flag-range, interval interpretation with summaries of the "
              "pairs callees return); (d) each checked_/saturating_/wrapping_ variant delegates to the overflowing_ root of "
-             "its family or shares an arithmetic kernel with it, and saturates to the right bound (R-VARIANT)",
+             "its family or shares an arithmetic kernel with it, and saturates to the right bound (R-VARIANT); (e) in overflow-"
+             "checked (debug) builds no add/sub/neg entry reaches an undischarged arithmetic-overflow assertion (R-TOTAL/"
+             "overflow-checks)",
              "that the limb-wise carry chain computes the sum (e.g. seeded C01-carrying_add-compare is missed)",
              rules_with_canon("C01", {"src/add.rs"}, flag_for({"src/add.rs"}, ["add", "sub", "neg"])),
              ["that the limb-wise carry chain computes the sum/difference", "abs_diff's value"]),
@@ -187,7 +189,9 @@ PROPS = {
              "assert_eq! are documented); (b) results canonical on every path, incl. inv_ring for single-limb widths "
              "(R-CANON); (c) addmul's return and the `> MASK` comparison reach overflowing_mul's flag, addmul's own "
              "carries reach its overflow (R-FLAG), the indicator is not constant where it must vary (R-FLAG/flag-range); (d) "
-             "variants delegate to overflowing_mul or share its kernels (R-VARIANT)",
+             "variants delegate to overflowing_mul or share its kernels (R-VARIANT); (e) bounds checks and slice ranges "
+             "inside the multiplication kernels (addmul, addmul_n, addmul_nx1, cmp) are in scope and all discharged, and no "
+             "entry reaches an undischarged overflow assertion in overflow-checked builds (R-TOTAL/overflow-checks)",
              "products, addmul's truncation bookkeeping (seeded C02-addmul-truncated-row-flag is missed), Hensel lifting",
              rules_with_canon("C02", {"src/mul.rs"}, flag_for({"src/mul.rs", "src/algorithms/mul.rs"}, ["mul"])),
              ["products", "trimming / truncation bookkeeping in addmul", "Hensel lifting"]),
@@ -195,7 +199,8 @@ PROPS = {
              "is zero' site only behind a dominating non-zero test of that call's divisor (R-TOTAL, D-zero predicate "
              "propagated through div_rem/wrapping_div/Div); (b) div_rem, wrapping_div/rem, div_ceil call the kernel on every "
              "path to every return, so a zero divisor reaches the documented panic (R-GUARD/zero-divisor); (c) no todo!/"
-             "unimplemented! is reachable from any public item of the crate (R-UNIMPL)",
+             "unimplemented! is reachable from any public item of the crate (R-UNIMPL); (d) no overflow assertion outside "
+             "the division kernels is undischarged in overflow-checked builds (R-TOTAL/overflow-checks, 1 reviewed row)",
              "the Euclidean contract; that no non-zero divisor panics inside the Knuth kernels (C14, not applicable)",
              rules_C03, ["the Euclidean contract", "no non-zero divisor panics (kernel indices are run-time values)",
                          "values of div_ceil / next_multiple_of"]),
@@ -220,14 +225,17 @@ PROPS = {
              "comparison with MASK and, for both directions, on reads of self outside the shifted window (R-FLAG mask-/"
              "window-discard); (d) a Uint-typed shift amount is never used through its low limb without a whole-value "
              "check (R-LOWLIMB); (e) variants delegate to overflowing_shl resp. overflowing_shr (R-VARIANT), whose "
-             "indicators can be false for BITS == 0 and are not constant otherwise (R-FLAG/flag-range)",
+             "indicators can be false for BITS == 0 and are not constant otherwise (R-FLAG/flag-range); (f) no shift / "
+             "rotate entry reaches an undischarged overflow assertion in overflow-checked builds (R-TOTAL/overflow-checks)",
              "bit positions, rotation arithmetic, sign fill; exactness of the flag beyond the structural clauses (seeded "
              "C05-shr-flag-trailing_zeros is missed)", rules_C05,
              ["bit positions", "rotation arithmetic", "sign fill", "exactness of the lost-bit flag"]),
     "C06": P("C06", "(a) bit/set_bit/checked_byte/counting functions reach no undischarged panic site, index guards "
              "dominate the limb accesses (R-TOTAL); (b) not/bit-ops/set_bit keep values canonical (R-CANON rows with "
              "guard / callee-identity side conditions); (c) Uint::byte panics exactly for index >= BYTES in every "
-             "configuration (R-GUARD/byte)", "every counting function's value, most_significant_bits",
+             "configuration (R-GUARD/byte); (d) overflow assertions of the counting functions in overflow-checked builds: "
+             "discharged or one of 7 reviewed arithmetic rows (R-TOTAL/overflow-checks)", "every counting function's value, "
+             "most_significant_bits",
              rules_with_canon("C06", {"src/bits.rs"}, lambda ctx: [guard.byte_panics(ctx)]),
              ["values of the counting functions", "most_significant_bits", "reverse_bits"]),
     "C07": P("C07", "(a) every TryFrom/wrapping/saturating conversion in either direction and the *_from_limbs_slice "
@@ -240,7 +248,9 @@ PROPS = {
              "wrapped resp. maximum payload, saturating_from maps error kinds to MAX/ZERO (R-VARIANT); (e) TryFrom<u64> "
              "errs exactly on `value > MASK` under LIMBS <= 1, signed conversions produce ValueNegative exactly on "
              "is_negative (R-GUARD); (f) the slice constructor can report overflow in every configuration incl. BITS = 0 "
-             "(R-FLAG/feasible-failure)", "that wrapped payloads equal v mod 2^BITS", rules_C07, ["wrapped payload values"]),
+             "(R-FLAG/feasible-failure); (g) no conversion entry reaches an undischarged overflow assertion in overflow-"
+             "checked builds (R-TOTAL/overflow-checks)", "that wrapped payloads equal v mod 2^BITS", rules_C07,
+             ["wrapped payload values"]),
     "C08": P("C08", "(a) try_from_{be,le}_slice, checked_copy_* and the slice/vec byte forms reach no undischarged panic "
              "site in any configuration, the asserting from_limbs only behind a top-limb check (R-TOTAL); (b) byte-form "
              "writers keep values canonical (R-CANON); (c) checked_copy_* touch the buffer only behind the length guard "
@@ -260,7 +270,8 @@ PROPS = {
     "C10": P("C10", "(a) reduce_mod/mul_mod/pow_mod return ZERO on the zero-modulus edge and reach the division kernel "
              "only behind it (R-GUARD/zero-divisor, R-TOTAL D-zero: the non-zero test must dominate the use with no write "
              "to the divisor in between); (b) add_mod uses the overflow indicator (R-FLAG); "
-             "(c) results canonical with reviewed rows for the kernel post-conditions (R-CANON)",
+             "(c) results canonical with reviewed rows for the kernel post-conditions (R-CANON); (d) overflow assertions "
+             "outside the division / GCD kernels in overflow-checked builds (R-TOTAL/overflow-checks, reviewed rows)",
              "residues, pow_mod's exponent loop (seeded C10-pow_mod-skips-zero-limbs is missed), inv_mod cofactor sign",
              rules_C10, ["residues", "pow_mod", "inv_mod cofactor sign"]),
     "C13": P("C13", "(a) checked_log/checked_log2/checked_log10/checked_pow and the pow family reach no undischarged "
@@ -268,7 +279,8 @@ PROPS = {
              "return-discriminant summaries; log's documented preconditions are exported as predicates and verified at "
              "checked_log's call); (b) both overflowing_mul indicators of overflowing_pow reach its flag (R-FLAG), which is "
              "not constant where it must vary (R-FLAG/flag-range); (c) pow variants delegate to overflowing_pow or share "
-             "its kernels, saturating_pow -> MAX (R-VARIANT)",
+             "its kernels, saturating_pow -> MAX (R-VARIANT); (d) overflow assertions in overflow-checked builds (R-TOTAL/"
+             "overflow-checks, reviewed rows for bit_len - 1 and most_significant_bits)",
              "values, the square-and-multiply loop (seeded C13-pow-limbwise-exponent is missed), termination of root, float "
              "estimates inside log (trusted rows)", rules_C13, ["values", "termination of root", "float estimates inside log"]),
     "C16": P("C16", "(a) per integration (13 encoder/decoder pairs) both sides use Uint byte-form functions of the byte "
